@@ -18,7 +18,7 @@ CHECKS = {
 	'C01': dict(
 		category='exploration',
 		technique='exhaustive short strings x small specs + Hypothesis fragment-built sequences vs a definitional both-strand k-mer finder (reference model)',
-		text='Every string up to length 6 (quick) / 8 (thorough) over two 4-letter alphabets for 18 (k,prefix) specs is compared with a definitional scan of both strands, which settles off-by-one errors in either search bound and the reverse slice for short inputs completely; generated multi-sequence inputs (arbitrary bytes, overlapping/self-overlapping/palindromic prefixes up to 12 nt, hits flush with either end, k up to 32) are run through all four input types and all accumulators and compared value-for-value, dtype and order; find_kmers matches are compared with the definitional occurrences; str inputs with embedded whitespace must be rejected or treated as invalid characters, never joined; 3 cases in 5 are preceded by calls that fail part-way, which must leave no trace.',
+		text='Every string up to length 6 (quick) / 8 (thorough) over two 4-letter alphabets for 18 (k,prefix) specs is compared with a definitional scan of both strands, which settles off-by-one errors in either search bound and the reverse slice for short inputs completely; generated multi-sequence inputs (arbitrary bytes, overlapping/self-overlapping/palindromic prefixes up to 12 nt, hits flush with either end, k up to 32) are run through all four input types and all accumulators and compared value-for-value, dtype and order; find_kmers matches are compared with the definitional occurrences; whitespace inside a sequence counts as any other non-ACGT character (it is never removed so that its flanks join); 3 cases in 5 are preceded by calls that fail part-way, which must leave no trace.',
 		note='Trusts vlib/refmodel/kmer.py (literal reverse-complement strand, Python-int base-4 code). Dense accumulator only for k<=12 (4^k bytes). Native encoders tested as the existing C translation.',
 		design='DESIGN.md §4 C01',
 	),
